@@ -12,6 +12,9 @@ THEOREMS = [
     "C35.interval_emits_naturals",
     "C35.tick_rule",
     "C35.closed_form_any_sleep",
+    "C35.timer_tick_rule",
+    "C35.timer_ticks",
+    "C35.timer_terminates",
     "C35.stops_on_dispose",
     "C35.stops_on_dispose_during_run",
     "C35.stops_after_raise",
@@ -20,7 +23,8 @@ RULE = ("1..3 periodic actions (periods 1..10, initial states 0/5/-2) scheduled 
         "reactivex.interval(p)/timer(p, p) subscriptions — on TestScheduler/VirtualTimeScheduler/HistoricalScheduler; the action raises at a chosen "
         "state, sleeps inside the call (drift: 0, < period, = period, > period), disposes its own handle; dispose actions scheduled at/around tick "
         "boundaries; advance_to in one or several steps. Compared with the Lean model on the invocation log (task, clock, state), outcomes, final clock, "
-        "pending count, handler calls. Plus timer(duetime, period), duetime != period or absolute/past duetime, with ticks made late (< , = , > one period) by same-time actions that sleep and by a sleeping observer (oracle-only reference of the re-basing rule); several jobs on ONE CatchScheduler (schedule_periodic/interval/timer(p,p), one raising, one scheduled after the "
+        "pending count, handler calls. Plus timer(duetime, period), duetime != period or absolute/past duetime, with ticks made late (< , = , > one period) by same-time actions that sleep and by a sleeping observer, compared with the Lean timer model (RxModel/VtsTimer.lean) on (clock, value) of every emission and the final clock, "
+        "and checked against a reference of the re-basing rule; several jobs on ONE CatchScheduler (schedule_periodic/interval/timer(p,p), one raising, one scheduled after the "
         "failure); oracle-only timer(d, p), d != p, and timer(d); oracle-only NewThreadScheduler.schedule_periodic under a controlled clock (per-call "
         "clock advance 0..2 periods, dispose/raise inside the k-th call); EventLoopScheduler.schedule_periodic under a controlled clock (`now` overridden, "
         "timed Condition.wait advances the clock; per-call clock advance 0..3 periods, dispose/raise in the k-th call) compared with the Lean periodic model "
@@ -104,7 +108,7 @@ def _run_timer_late(case):
 
     src.subscribe(on_next, scheduler=rig.s)
     rig.s.advance_to(rig.abs_(case["T"]))
-    return {"seen": seen}
+    return {"seen": seen, "clock": rig.clock()}
 
 
 def timer_late_oracle(case, out):
@@ -202,6 +206,9 @@ def el_model_request(case):
 
 
 def model_request(case):
+    if case["op"] == "timer_late":
+        return {"op": "tmr_script", "clock": case["clock"], "due0": case["due0"], "period": case["period"], "blockers": case["blockers"],
+                "obs_sleep": case["obs_sleep"], "T": case["T"]}
     if case["op"] == "el_case":
         return el_model_request(case)
     return vc.per_model_request(case) if case["op"] == "per_script" else None
@@ -371,12 +378,16 @@ def impl(case):
 
 
 def canon_impl(case, out):
+    if case["op"] == "timer_late":
+        return {"hang": True} if out.get("hang") else {"seen": out["seen"], "clock": out["clock"]}
     if case["op"] == "el_case":
         return {"hang": True} if out.get("hang") else {"log": out["log"]}
     return out if case["op"] in ("timer_case", "nts_case", "timer_late") else vc.canon_impl(case, out)
 
 
 def canon_model(case, resp):
+    if case["op"] == "timer_late":
+        return resp if "error" in resp else {"seen": resp["seen"], "clock": resp["clock"]}
     if case["op"] == "el_case":
         return resp if "error" in resp else {"log": resp["log"]}
     return vc.canon_model(case, resp)
@@ -506,6 +517,7 @@ LEVEL_NOTE = ("Theorems and model are for virtual time. Real-thread periodic sch
               "closed_form_any_sleep: any sleep, next call max(period, sleep) after the previous one started). With several tasks the timing depends on the other "
               "work; what is proved there is the per-tick rule (tick_rule: invoked at max(clock, due), next tick due = start of this call + period, state threaded) "
               "and the stop invariants — the correspondence covers those mixes. timer(d, p) with d != p "
-              "(its own absolute re-basing loop in observable/timer.py, distinct from PeriodicScheduler) is checked by the oracle only — including late ticks, against a "
-              "reference of the rule 'tick k at duetime + k*period unless a tick ran a period or more late' — not modelled in Lean. period <= 0 (the real advance_to then spins for ever) "
+              "(its own absolute re-basing loop in observable/timer.py, distinct from PeriodicScheduler) is modelled in RxModel/VtsTimer.lean (ticks, blocking actions, sleeping "
+              "observer; theorems timer_tick_rule / timer_ticks for every cost function, i.e. every sequence of lateness values); disposal of that subscription and timer(d) "
+              "single-shot are oracle-only (timer_case). period <= 0 (the real advance_to then spins for ever) "
               "is outside the model (reported as `stuck`).")
